@@ -6,7 +6,7 @@ PROP = "C05"
 
 def build(tier):
     report = {}
-    groups = SG.select(PROP, ["herm"], report)
+    groups = SG.select(PROP, ["herm", "gen"], report)
     meta = {"level": "proof", "trusted_base": SG.TRUSTED, "assumptions": SG.ASSUMPTIONS, "extraction": report,
             "not_covered": ["numerical content of the returned values (C01/C02)"],
             "explanation": "class invariant assumed on entry of each public method from an otherwise arbitrary state and proved on exit (induction over call histories)"}
